@@ -6,11 +6,13 @@ import CalVerif.Model.XmlText
       si <closing-qname-hex> <ev>…        read_string after the Start of the item  → `ok S:<hex> rest=<n>` | `ok N rest=<n>`
       sst <ev>…                           read_shared_strings                       → `ok <n> <hex> <hex> …`
       cell <t|-> <hex,hex,…|-> <ev>…      children of one <c t=…> (strings = table) → `ok str:<hex>` | `ok shared:<hex>` | `ok empty` | `ok other`
+      fmla <ev>…                          formula text of one <c> (next_formula)    → `ok <hex> rest=<n>`
       odscell <ev>…                       get_datatype text path                    → `ok <hex> rest=<n>`
       wide <hex>                          wide_str                                  → `ok <units as LE bytes hex> <str_len>`
     errors: `err:<class>` | `panic:<site>` | `fuel`
     event tokens: S<qname-hex>[,<key-hex>=<val-hex>]…  E<qname-hex>  M<qname-hex>[,…] (empty element: expanded to
-    Start+End, the readers run with expand_empty_elements)  T<hex>  C<hex>  O ; an empty text is `T` alone -/
+    Start+End, the readers run with expand_empty_elements)  T<hex>[~<spelling digits, ignored>]  C<hex>  O ;
+    an empty text is `T` alone -/
 
 open XmlText
 
@@ -49,7 +51,7 @@ def parseEv (tok : String) : Option (List Ev) :=
   | 'S' => (parseTag body).map fun (n, a) => [.start n a]
   | 'M' => (parseTag body).map fun (n, a) => [.start n a, .end_ n]
   | 'E' => (strOfHex body).map fun q => [.end_ (nameOf q)]
-  | 'T' => (hexOrEmpty body).map fun b => [.text b]
+  | 'T' => (hexOrEmpty ((body.splitOn "~").headD "")).map fun b => [.text b]   -- `~…`: spelling hints for the writer
   | 'C' => (hexOrEmpty body).map fun b => [.cdata b]
   | 'O' => some [.other]
   | _ => none
@@ -91,6 +93,10 @@ def handleOne (ws : List String) : String :=
     | some ss, some es =>
       showRes (fun (v, _) => showCellVal v) (cellText (if t = "-" then none else some t) ss es)
     | _, _ => "bad-request"
+  | "fmla" :: evs =>
+    match parseEvs evs with
+    | some es => showRes (fun (s, rest) => hx s ++ s!" rest={rest.length}") (formulaText es)
+    | none => "bad-request"
   | "odscell" :: evs =>
     match parseEvs evs with
     | some es => showRes (fun (s, rest) => hx s ++ s!" rest={rest.length}") (odsCellText es)
